@@ -12,6 +12,7 @@ import (
 	"math/rand"
 	"os"
 	"path/filepath"
+	"sort"
 	"testing"
 
 	"github.com/gagliardetto/solana-go"
@@ -101,14 +102,54 @@ func TestVerifC06Records(t *testing.T) {
 			attempts++
 		}
 	}
-	for missing() > 0 && attempts < maxAttempts {
-		// small window
-		put(4+rng.Intn(10), true)
+	// adaptive search: the record length grows ~linearly with the number of incompressible entries; keep
+	// an estimate of bytes/entry from what was observed and aim at each missing target length
+	lastN, lastLen := 1200, 0
+	aim := func(target uint32) {
+		per := 12.4
+		if lastLen > 0 {
+			per = float64(lastLen) / float64(lastN)
+		}
+		n := int(float64(target)/per + 0.5)
+		if n < 1 {
+			n = 1
+		}
+		n += rng.Intn(3) - 1
+		if n < 1 {
+			n = 1
+		}
+		before := len(recs)
+		put(n, true)
 		attempts++
-		// large window: ~1200-1400 incompressible entries
-		if attempts%2 == 0 {
-			put(1150+rng.Intn(260), true)
-			attempts++
+		if len(recs) > before {
+			lastN, lastLen = n, int(recs[len(recs)-1].Len)
+		}
+	}
+	for missing() > 0 && attempts < maxAttempts {
+		// pick the missing targets round-robin
+		var todo []uint32
+		for l := range want {
+			if !covered[l] {
+				todo = append(todo, l)
+			}
+		}
+		sort.Slice(todo, func(i, j int) bool { return todo[i] < todo[j] })
+		for _, tgt := range todo {
+			if attempts >= maxAttempts {
+				break
+			}
+			if tgt < 1000 {
+				lastN, lastLen = 0, 0
+				// small records: 4..12 entries
+				n := int(tgt)/13 + rng.Intn(3) - 1
+				if n < 1 {
+					n = 1
+				}
+				put(n, true)
+				attempts++
+				continue
+			}
+			aim(tgt)
 		}
 	}
 	if err := ll.Flush(); err != nil {
